@@ -25,9 +25,10 @@ type outSpec struct {
 	NoMetadata  bool        `json:"no_metadata"`
 	DisableJSON bool        `json:"disable_json"`
 	Timestamp   bool        `json:"add_timestamp"`
-	Real        bool        `json:"real"`      // real shell cross-check
-	Other       bool        `json:"other"`     // a second process logging concurrently (unified file)
-	ShortLog    int         `json:"short_log"` // >0: log_length smaller than the output (single stream); the stored log must be the exact tail
+	Real        bool        `json:"real"`              // real shell cross-check
+	Other       bool        `json:"other"`             // a second process logging concurrently (unified file)
+	Stopped     bool        `json:"stopped,omitempty"` // long-running, stopped through the API: the burst "before exit" is what its TERM handler prints
+	ShortLog    int         `json:"short_log"`         // >0: log_length smaller than the output (single stream); the stored log must be the exact tail
 }
 
 func genOutSpec(rng *rand.Rand, i int) outSpec {
@@ -86,6 +87,21 @@ func genOutSpec(rng *rand.Rand, i int) outSpec {
 	sp.DisableJSON = rng.Intn(4) == 0
 	sp.Timestamp = rng.Intn(4) == 0
 	sp.Other = sp.FileMode == "unified" && rng.Intn(2) == 0
+	if i%10 == 2 {
+		// both streams written heavily at the same time (two reader goroutines append concurrently)
+		sp.Chunks = []sim.Chunk{{Stream: "o", N: 300 + rng.Intn(500)}, {Stream: "e", N: 300 + rng.Intn(500)}, {Stream: "o", N: 100, When: "x"}, {Stream: "e", N: 100, When: "x"}}
+	}
+	if i%10 == 4 {
+		sp.Stopped = true
+		sp.Restarts = 0
+		burst := sim.Chunk{Stream: []string{"o", "e"}[rng.Intn(2)], N: 50 + rng.Intn(400), When: "x", Len: []int{0, 60}[rng.Intn(2)]}
+		for k := range sp.Chunks {
+			if sp.Chunks[k].Stream == burst.Stream {
+				sp.Chunks[k].NoNL = false // only the very last line of a stream may lack its newline
+			}
+		}
+		sp.Chunks = append(sp.Chunks, burst)
+	}
 	if i%10 == 7 {
 		// more output than the configured length: single stream, so that the
 		// stored tail is fully determined
@@ -312,6 +328,10 @@ func runOutput(c fw.Case) fw.Result {
 		logCfg("")
 	}
 	script := sim.Script{W: w.ID, Exits: exits, RunMs: []int{1}, Out: sp.Chunks}
+	if sp.Stopped {
+		script.RunMs = []int{-1}
+		script.Sig = &sim.SigSpec{Ms: 1}
+	}
 	fmt.Fprintf(&y, "processes:\n  lg:\n    command: %s\n", yq(sim.FormatCommand(script, "")))
 	if sp.Restarts > 0 {
 		fmt.Fprintf(&y, "    availability:\n      restart: always\n      max_restarts: %d\n", sp.Restarts)
@@ -332,6 +352,15 @@ func runOutput(c fw.Case) fw.Result {
 	}
 	defer env.Cleanup()
 	env.Start()
+	if sp.Stopped {
+		if !w.WaitFor(5*time.Second, func(v *sim.WorldView) bool { return v.Launches("lg") >= 1 }) {
+			r.Inconclusive = "lg was not launched"
+			r.Dirty = true
+			return r
+		}
+		time.Sleep(time.Duration(c.Seed%5) * time.Millisecond)
+		_ = env.Runner.StopProcess("lg")
+	}
 	if out := env.WaitRun(6e9, 60e9); out != sim.RunReturned {
 		r.Inconclusive = fmt.Sprintf("run outcome %d", out)
 		r.Dirty = true
